@@ -13,8 +13,14 @@ LEAN = os.path.join(VERIF, "lean")
 HARNESS = os.path.join(VERIF, "harness")
 
 
+def _harness_target():
+    # SAMVERIF_COV=1 (vlib/coverage.py): an instrumented copy of the harness (nightly,
+    # -C instrument-coverage) in its own target dir; measurement only, never part of a verdict
+    return os.path.join(HARNESS, "target", "cov", "debug") if os.environ.get("SAMVERIF_COV") else os.path.join(HARNESS, "target", "debug")
+
+
 def harness_bin(prop):
-    return os.path.join(HARNESS, "target", "debug", prop.lower())
+    return os.path.join(_harness_target(), prop.lower())
 
 
 def driver_bin(prop):
@@ -114,6 +120,24 @@ class BuildError(Exception):
         self.log = log
 
 
+def _cargo_build(binname):
+    if os.environ.get("SAMVERIF_COV"):
+        return ["cargo", "+nightly", "build", "--offline", "--bin", binname]
+    return ["cargo", "build", "--offline", "--bin", binname]
+
+
+def _cargo_env():
+    if os.environ.get("SAMVERIF_COV"):
+        e = dict(os.environ)
+        e["CARGO_TARGET_DIR"] = os.path.join(HARNESS, "target", "cov")
+        e["RUSTFLAGS"] = "-C instrument-coverage --cfg samlang_verif"
+        # instrumented proc-macros / build scripts write a profile where they run (the crate's
+        # source directory, i.e. /repo) unless told otherwise
+        e["LLVM_PROFILE_FILE"] = "/scratch/cov/build/build-%p-%m.profraw"
+        return e
+    return None
+
+
 def build_harness(prop):
     """Rebuild the property's harness binary (and thereby the samlang crates it links) from
     /repo's current working tree, with --cfg samlang_verif (harness/.cargo/config.toml)."""
@@ -124,7 +148,7 @@ def build_harness(prop):
                 shutil.copy(src, dst)
         except OSError:
             pass
-        rc, out = sh(["cargo", "build", "--offline", "--bin", prop.lower()], cwd=HARNESS, timeout=1800)
+        rc, out = sh(_cargo_build(prop.lower()), cwd=HARNESS, timeout=1800, env=_cargo_env())
         if rc != 0:
             raise BuildError("harness build (cargo build of /repo crates with --cfg samlang_verif)", out[-6000:])
     return harness_bin(prop)
@@ -405,10 +429,10 @@ def proof_gate(ctx, search=None):
 def build_exec():
     """Build the shared real-execution oracle binary (harness/src/bin/exec.rs)."""
     with Lock("cargo"):
-        rc, out = sh(["cargo", "build", "--offline", "--bin", "exec"], cwd=HARNESS, timeout=1800)
+        rc, out = sh(_cargo_build("exec"), cwd=HARNESS, timeout=1800, env=_cargo_env())
         if rc != 0:
             raise BuildError("exec oracle build", out[-6000:])
-    return os.path.join(HARNESS, "target", "debug", "exec")
+    return os.path.join(_harness_target(), "exec")
 
 
 def exec_programs(programs, timeout=3600):
@@ -419,7 +443,7 @@ def exec_programs(programs, timeout=3600):
     if not programs:
         return []
     data = "\n".join(json.dumps(p) for p in programs).encode() + b"\n"
-    p = subprocess.run([os.path.join(HARNESS, "target", "debug", "exec")], input=data,
+    p = subprocess.run([os.path.join(_harness_target(), "exec")], input=data,
                        stdout=subprocess.PIPE, stderr=subprocess.PIPE, timeout=timeout)
     out = [json.loads(l) for l in p.stdout.decode("utf-8", "replace").split("\n") if l.strip()]
     if len(out) != len(programs):
